@@ -6,6 +6,7 @@ package identity
 
 import (
 	"fmt"
+	"time"
 
 	abci "github.com/tendermint/tendermint/abci/types"
 	"github.com/tendermint/tendermint/crypto/ed25519"
@@ -209,4 +210,65 @@ func SV_C10_election() {
 	sv.Cover(int64(len(updates)) > nElected, "some-removal")
 	sv.Observe("nElected", nElected)
 	sv.Observe("nUpdates", len(updates))
+}
+
+// SV_C10_frozen_records: the election read from the evidence records, the way a
+// block does it (Setup, CheckMaliciousValidators, GetEndBlockUpdate), instead
+// of from a prepared malicious map.
+//
+// sv:bounds 3 validators with symbolic powers above the minimum, all in the last commit; each never suspected, frozen for a byzantine fault, or frozen and released (record kept), in every combination and therefore in every address order; top count 3; block 6 (above the BlockVotesDiff threshold 4), all signed
+// sv:outside missed-vote accounting (everybody signed); allegation verdicts in this block; more validators
+// sv:goal a validator whose record says frozen is issued no positive power and, being in the last commit, is purged; every other validator is issued exactly its power
+func SV_C10_frozen_records() {
+	e := c10NewEnv(3, 1, 3)
+	now := time.Unix(1600000000, 0).UTC()
+	power := []int64{sv.Int64("power0"), sv.Int64("power1"), sv.Int64("power2")}
+	frozen := make([]bool, 3)
+	var votes []abci.VoteInfo
+	for i, c := range e.cands {
+		sv.Assume(power[i] >= 1 && power[i] < 1<<40)
+		v := NewValidator(c.addr, c.addr, c.pub, c.pub, *balance.NewAmount(power[i]), fmt.Sprint("n", i))
+		v.Power = power[i]
+		if err := e.vs.Set(*v); err != nil {
+			sv.Unreachable("validator record")
+		}
+		switch sv.Choice(fmt.Sprint("suspicious", i), 3) {
+		case 1:
+			e.vctx.EvidenceStore.CreateSuspiciousValidator(c.addr, evidence.BYZANTINE_FAULT, 2, &now)
+			frozen[i] = true
+		case 2:
+			lvh, _ := e.vctx.EvidenceStore.CreateSuspiciousValidator(c.addr, evidence.BYZANTINE_FAULT, 2, &now)
+			rel := now.Add(time.Hour)
+			lvh.ReleaseAt, lvh.ReleaseHeight = &rel, 3
+			e.vctx.EvidenceStore.UpdateSuspiciousValidator(lvh)
+		}
+		votes = append(votes, abci.VoteInfo{Validator: abci.Validator{Address: c.addr, Power: power[i]}, SignedLastBlock: true})
+	}
+	for i := 0; i < 5; i++ {
+		e.st.Commit() // version 5 = h-1
+	}
+	h := int64(6)
+	t := now.Add(2 * time.Hour)
+	if err := e.vs.Setup(abci.RequestBeginBlock{Header: abci.Header{Height: h, Time: t}, LastCommitInfo: abci.LastCommitInfo{Votes: votes}}, nil); err != nil {
+		sv.Unreachable("setup")
+	}
+	e.vs.CheckMaliciousValidators(e.vctx.EvidenceStore, e.vctx.Govern)
+	ups := e.vs.GetEndBlockUpdate(e.vctx, abci.RequestEndBlock{Height: h})
+	for i, c := range e.cands {
+		got, seen := int64(-1), 0
+		for _, u := range ups {
+			if string(u.PubKey.Data) == string(c.pub.Data) {
+				got = u.Power
+				seen++
+			}
+		}
+		sv.Assert(seen <= 1, "no-duplicate-update")
+		if frozen[i] {
+			sv.Assert(got == 0, "frozen-validator-is-not-elected-and-is-purged")
+			sv.Cover(true, fmt.Sprint("frozen", i))
+		} else {
+			sv.Assert(got == power[i], "validator-that-is-not-frozen-is-elected-with-its-power")
+		}
+		sv.Observe(fmt.Sprint("update", i), got)
+	}
 }
